@@ -327,6 +327,8 @@ func (c *vfCfg) Args() []string {
 	switch c.Provider {
 	case "oidc":
 		a = append(a, "--provider=oidc", "--oidc-issuer-url=http://"+vfIdpHost, fmt.Sprintf("--insecure-oidc-skip-nonce=%v", c.SkipNonce))
+	case "keycloak-oidc":
+		a = append(a, "--provider=keycloak-oidc", "--oidc-issuer-url=http://"+vfIdpHost, fmt.Sprintf("--insecure-oidc-skip-nonce=%v", c.SkipNonce))
 	case "plain":
 		a = append(a, "--provider=digitalocean", "--login-url=http://"+vfIdpHost+"/plain/authorize", "--redeem-url=http://"+vfIdpHost+"/plain/token",
 			"--profile-url=http://"+vfIdpHost+"/plain/account", "--validate-url=http://"+vfIdpHost+"/plain/validate")
